@@ -2,7 +2,7 @@
 """Evaluate seeded changes against the checks.
 
 usage: tools/seed_eval.py [--verify] [--jobs N] [--out FILE] DIR...
-Each DIR holds patch.diff (+ demo.py, meta.json / notes.md).  For every DIR a scratch git worktree of /repo's HEAD is made
+Each DIR holds patch.diff (+ demo.py, meta.json / notes.md).  For every DIR a scratch copy of /repo's HEAD (git archive) is made
 under a temporary directory (outside /repo and /verif), the patch is applied there, optionally the claims about the
 change are verified (suite still passes, demo fails with / passes without the patch), and every check is run against the
 scratch tree with `./check <ID> --repo <scratch>`; the worktree is removed afterwards.  Nothing touches /repo's tree.
@@ -30,6 +30,8 @@ def sh(cmd, cwd=None, env=None, timeout=900):
 
 
 def props():
+    if os.environ.get('VERIF_PROPS'):
+        return sorted(os.environ['VERIF_PROPS'].split(','))
     return sorted(p.stem.upper() for p in (VERIF / 'sa' / 'rules').glob('c[0-9]*.py'))
 
 
@@ -39,19 +41,20 @@ def evaluate(d, verify):
     tmp = pathlib.Path(tempfile.mkdtemp(prefix='seedeval_'))
     wt = tmp / 'wt'
     try:
-        rc, o = sh(['git', '-C', '/repo', 'worktree', 'add', '-q', '--detach', str(wt), 'HEAD'])
+        # scratch copy of /repo's HEAD (git archive: committed state only, no worktree registration, so parallel runs cannot collide)
+        wt.mkdir()
+        rc, o = sh(f'git -C /repo archive HEAD | tar -x -C {wt}')
         if rc:
-            return {**out, 'ok': False, 'error': 'worktree: ' + o}
+            return {**out, 'ok': False, 'error': 'archive: ' + o}
         env = {'PYTHONPATH': str(wt), 'PYTHONDONTWRITEBYTECODE': '1'}
         demo = d / 'demo.py'
         if verify and demo.exists():
             rc, o = sh([PY, str(demo)], cwd=wt, env=env, timeout=300)
             out['demo_clean_rc'] = rc
-        rc, o = sh(['git', 'apply', str(d / 'patch.diff')], cwd=wt)
+        rc, o = sh(['patch', '-s', '-p1', '-i', str(d / 'patch.diff')], cwd=wt)
         if rc:
             return {**out, 'ok': False, 'error': 'apply: ' + o}
-        rc, o = sh(['git', 'diff', '--stat'], cwd=wt)
-        out['files'] = re.findall(r'^\s*(\S+)\s+\|', o, re.M)
+        out['files'] = sorted(set(re.findall(r'^\+\+\+ b/(\S+)', (d / 'patch.diff').read_text(), re.M)))
         if verify:
             rc, o = sh([PY, '-m', 'pytest', '-q', '-p', 'no:cacheprovider', '--timeout=900', '--continue-on-collection-errors', '-n', '0'],
                        cwd=wt, env=env, timeout=1200)
@@ -78,9 +81,7 @@ def evaluate(d, verify):
         out['ok'] = False
         out['error'] = repr(e)
     finally:
-        sh(['git', '-C', '/repo', 'worktree', 'remove', '--force', str(wt)])
         shutil.rmtree(tmp, ignore_errors=True)
-        sh(['git', '-C', '/repo', 'worktree', 'prune'])
     return out
 
 
